@@ -40,7 +40,7 @@ type tok struct {
 // lex cuts one line into tokens. Structural bytes are passed through untouched; a string literal is
 // the raw text between its quotes (escapes not interpreted); anything else is a bare literal.
 func lex(line []byte) ([]tok, [][]byte) {
-	var out []tok
+	out := []tok{}
 	var raws [][]byte
 	i := 0
 	for i < len(line) {
@@ -247,6 +247,7 @@ func runValues(out string) {
 		{"valuerStr", lazy{slog.StringValue("LV")}}, {"valuerInt", lazy{slog.Int64Value(5)}}, {"valuerErr", lazy{slog.AnyValue(errors.New("E!"))}},
 		{"valuerNaN", lazy{slog.Float64Value(math.NaN())}}, {"valuerGroup", lazy{slog.GroupValue(slog.Int("a", 1))}},
 		{"valuerEmptyGroup", lazy{slog.GroupValue()}}, {"valuerMarshalFail", lazy{slog.AnyValue(mFail{})}},
+		{"big", strings.Repeat("x", 20000)}, {"bigbytes", bytes20k()},
 		{"chan", make(chan int)}, {"func", func() {}}, {"strptrnil", (*string)(nil)}, {"jsonnumber", json.Number("12")},
 	}
 	for _, addSource := range []bool{false, true} {
@@ -269,6 +270,7 @@ func runValues(out string) {
 					line, ok := oneLine(c)
 					toks, _ := lex(line)
 					maskTime(toks)
+					shorten(toks)
 					rt := true
 					if f, isF := k.v.(float64); isF && !math.IsNaN(f) && !math.IsInf(f, 0) {
 						rt = false
@@ -292,6 +294,27 @@ func runValues(out string) {
 					}
 					w.Put(map[string]any{"mode": "values", "kind": k.name, "where": where, "source": addSource, "level": levelName(level), "toks": toks, "oneline": ok, "roundtrip": rt})
 				}
+			}
+		}
+	}
+}
+
+func bytes20k() []byte { return make([]byte, 15000) } // base64: 20000 x 'A'
+
+// shorten collapses an oversize literal made of one repeated byte (checked here) to "<n c>", so that TLC need not walk it
+func shorten(toks []tok) {
+	for i := range toks {
+		if len(toks[i].B) > 4000 {
+			same := true
+			for _, b := range toks[i].B {
+				if b != toks[i].B[0] {
+					same = false
+					break
+				}
+			}
+			if same {
+				toks[i].X = fmt.Sprintf("<%d %c>", len(toks[i].B), rune(toks[i].B[0]))
+				toks[i].B = []int{}
 			}
 		}
 	}
